@@ -1,5 +1,744 @@
 package main
 
-import "verif/mon"
+import (
+	"crypto/aes"
+	"encoding/binary"
+	"encoding/hex"
+	"fmt"
+	"math/rand/v2"
+	"net"
+	"time"
 
-func checkC13(r *mon.Run) {}
+	"github.com/scionproto/scion/pkg/addr"
+	"github.com/scionproto/scion/pkg/slayers/path/epic"
+	"github.com/scionproto/scion/private/topology"
+	"github.com/scionproto/scion/router"
+
+	"verif/mon"
+	"verif/rfix"
+)
+
+// ---- reference EPIC MAC (doc/protocols/scion-header.rst "EPIC Procedures",
+// pkg/experimental/epic comments): CBC-MAC (AES, zero IV) keyed with the hop's
+// full 16-byte MAC over
+//   flags(1: source host address length bits) | Timestamp of the first info field (4) |
+//   PktID (8: EpicTS, Counter) | SrcISD-AS (8) | SrcHostAddr (4..16) | PayloadLen (2) | zero padding
+// truncated to 4 bytes. ----
+
+func refEpicMAC(auth [16]byte, sl uint8, infoTs uint32, pktID [8]byte, srcIA uint64, srcHost []byte, payloadLen uint16) [4]byte {
+	in := make([]byte, 0, 48)
+	in = append(in, sl&3)
+	in = binary.BigEndian.AppendUint32(in, infoTs)
+	in = append(in, pktID[:]...)
+	in = binary.BigEndian.AppendUint64(in, srcIA)
+	in = append(in, srcHost...)
+	in = binary.BigEndian.AppendUint16(in, payloadLen)
+	for len(in)%16 != 0 {
+		in = append(in, 0)
+	}
+	blk, err := aes.NewCipher(auth[:])
+	if err != nil {
+		panic(err)
+	}
+	var x [16]byte
+	for i := 0; i < len(in); i += 16 {
+		for j := 0; j < 16; j++ {
+			x[j] ^= in[i+j]
+		}
+		blk.Encrypt(x[:], x[:])
+	}
+	var out [4]byte
+	copy(out[:], x[:4])
+	return out
+}
+
+const (
+	epicTick       = 21 * time.Microsecond
+	epicLifetime   = 2 * time.Second
+	epicSkew       = time.Second
+	epicWindowPast = epicLifetime + epicSkew // statement: "within the maximum packet lifetime plus clock skew"
+)
+
+// epicView is what the reference reads from EPIC packet bytes for the router
+// that is about to process them.
+type epicView struct {
+	ok       bool
+	pos      string // "last", "penultimate", "xover-penultimate", "other"
+	hvfOK    bool   // the HVF relevant at pos equals the reference EPIC MAC
+	senderNs int64  // time the packet claims to have been sent
+	n, cur   int
+}
+
+// viewEpic judges EPIC packet bytes independently of the generator: position of
+// the processing router, the relevant hop's full MAC recomputed under hopKey,
+// and the HVF comparison.
+func viewEpic(in []byte, hopKey []byte, fromOutside bool) epicView {
+	var v epicView
+	h, err := rfix.ParseHdr(in)
+	if err != nil || h.PathType != 3 {
+		return v
+	}
+	v.ok = true
+	v.n, v.cur = h.NumHF, h.CurrHF
+	meta := in[h.PathOff : h.PathOff+16]
+	var pktID [8]byte
+	copy(pktID[:], meta[:8])
+	phvf, lhvf := meta[8:12], meta[12:16]
+	firstTs := binary.BigEndian.Uint32(in[h.InfoOff[0]+4:])
+	epicTS := binary.BigEndian.Uint32(pktID[:4])
+	v.senderNs = int64(firstTs)*1e9 + (int64(epicTS)+1)*int64(epicTick)
+	// which hop's authenticator matters
+	cur := h.CurrHF
+	info := in[h.InfoOff[h.CurrINF]:]
+	peerFlag := info[0]&2 != 0
+	peering := peerFlag && (cur == h.SegLen[0]-1 || cur == h.SegLen[0])
+	xover := cur+1 < h.NumHF && h.SegOfHop(cur+1) != h.CurrINF && !peering
+	hopIdx, infIdx := -1, h.CurrINF
+	var hvf []byte
+	switch {
+	case cur == h.NumHF-1:
+		v.pos, hopIdx, hvf = "last", cur, lhvf
+	case cur == h.NumHF-2:
+		v.pos, hopIdx, hvf = "penultimate", cur, phvf
+	case xover && cur+1 == h.NumHF-2:
+		v.pos, hopIdx, infIdx, hvf = "xover-penultimate", cur+1, h.CurrINF+1, phvf
+	default:
+		v.pos = "other"
+		return v
+	}
+	inf := in[h.InfoOff[infIdx]:]
+	hop := in[h.HopOff[hopIdx]:]
+	segID := binary.BigEndian.Uint16(inf[2:4])
+	if hopIdx == cur && inf[0]&1 == 0 && fromOutside && !peering {
+		segID ^= binary.BigEndian.Uint16(hop[6:8])
+	}
+	full := rfix.HopMAC(hopKey, segID, binary.BigEndian.Uint32(inf[4:8]), hop[1],
+		binary.BigEndian.Uint16(hop[2:4]), binary.BigEndian.Uint16(hop[4:6]))
+	want := refEpicMAC(full, h.SL, firstTs, pktID, h.SrcIA, h.SrcHost, uint16(h.PayloadLen))
+	v.hvfOK = string(want[:]) == string(hvf)
+	return v
+}
+
+// freshAt: may a packet sent at senderNs be accepted at time t according to
+// the statement (within lifetime+skew of the current time)?
+func freshAt(senderNs int64, t time.Time) bool {
+	d := t.UnixNano() - senderNs
+	if d < 0 {
+		d = -d
+	}
+	return d <= int64(epicWindowPast)
+}
+
+// surelyFreshAt: inside the window every reading of the documents accepts:
+// not older than lifetime+skew, not more than the clock skew in the future.
+func surelyFreshAt(senderNs int64, t time.Time) bool {
+	d := t.UnixNano() - senderNs
+	return d <= int64(epicWindowPast) && d >= -int64(epicSkew)
+}
+
+type c13W struct {
+	Cfg      *cfgW  `json:"config"`
+	Scenario string `json:"scenario"`
+	Pos      string `json:"position"`
+	Pert     string `json:"perturbation"`
+	InIf     uint16 `json:"ingress_if"`
+	SrcUDP   string `json:"ingress_src,omitempty"`
+	Input    string `json:"input_hex"`
+	Plain    string `json:"plain_twin_hex,omitempty"`
+	Output   string `json:"output_hex,omitempty"`
+	PlainOut string `json:"plain_twin_output_hex,omitempty"`
+	OffsetMs int64  `json:"sender_minus_now_ms"`
+	Note     string `json:"note,omitempty"`
+}
+
+func checkC13(r *mon.Run) {
+	r.Rule = "star fixture (12 interfaces, all configuration orders, core/non-core); scenario paths (src/dst/transit/xover/peering roles, 1-3 segments, plus tiny peering paths with 1-hop segments) wrapped as EPIC with PHVF/LHVF from an independent AES-CBC-MAC; " +
+		"router placed at last, penultimate, penultimate-after-crossover and other hops; perturbations: sender time at -3s, +1s, +3s boundaries (+-delta) and far off, each MAC input changed after the HVFs were computed " +
+		"(src ISD-AS, src host same/other length, payload length, PktID counter, EpicTS tick, first info timestamp), HVF bit flips, swapped HVFs, HVF from another hop's authenticator or from the 6-byte MAC; " +
+		"oracle (universal, from the bytes): forwarded/delivered at those positions => |now - sender time| <= 3 s and HVF == reference EPIC MAC under the hop's full MAC; valid and surely fresh => accepted; " +
+		"other positions: same disposition, egress, SCMP type/code and output bytes (minus the 16 EPIC bytes, which must be unchanged) as the embedded SCION path sent as a plain SCION packet; class = position/shape/ingress/perturbation/outcome"
+	r.Assumptions = []string{
+		"the flags byte of the EPIC MAC input carries the source host address length in its two low bits, as pkg/experimental/epic documents (the drawing in scion-header.rst is ambiguous about the bit position)",
+		"time: the router reads time.Now() inside; every case is bracketed (t0 before, t1 after) and cases whose freshness verdict differs between t0 and t1 are counted inconclusive; quick tier keeps >= 250 ms from every boundary",
+		"sender times between now+1s (clock skew) and now+3s (lifetime+skew) are accepted by neither or either reading of the statement: observed, not judged",
+		"a 32-bit HVF collision (2^-32 per case) is ignored",
+	}
+	if w := (c13W{}); loadReplay(r, &w) {
+		c13Replay(r, &w)
+		return
+	}
+	rng := r.Rand("c13")
+	nStars := r.Pick(8, 48)
+	perStar := r.Pick(3000, 25000)
+	for i := 0; i < nStars; i++ {
+		w := genCfg(rng)
+		w.Order = rfix.LocalOrder(i % int(rfix.NumLocalOrders)).String()
+		w.Range = "31000-32767"
+		w.Reuse = i%2 == 0
+		s := mustStar(w)
+		for k := 0; k < perStar; k++ {
+			c13Case(r, rng, s, w, k)
+		}
+	}
+	r.Require(int64(nStars*perStar), 80, "valid_accepted_last", "valid_accepted_penultimate", "stale_rejected", "future_rejected",
+		"hvf_mismatch_rejected", "other_hop_same_as_scion_forwarded", "other_hop_same_as_scion_rejected",
+		"valid_accepted_xover_penultimate", "valid_accepted_peering_1_1_penultimate", "valid_accepted_peering_1_1_last")
+}
+
+// genPeerTiny builds a peering path with up-segment length u and down-segment
+// length d (1..3 each) with the AS under test at the peering hop of the up
+// (atUp) or down segment.
+func genPeerTiny(s *rfix.Star, rng *rand.Rand, now int64, u, d int, atUp bool) *rfix.Scn {
+	pickIf := func(lt topology.LinkType, not uint16) (rfix.IfSpec, bool) {
+		var c []rfix.IfSpec
+		for _, f := range s.Cfg.Ifs {
+			if f.LinkTo == lt && f.Owned && f.ID != not {
+				c = append(c, f)
+			}
+		}
+		if len(c) == 0 {
+			return rfix.IfSpec{}, false
+		}
+		return c[rng.IntN(len(c))], true
+	}
+	peerIf, ok := pickIf(topology.Peer, 0)
+	if !ok {
+		return nil
+	}
+	childIf, ok := pickIf(topology.Child, 0)
+	if !ok {
+		return nil
+	}
+	sc := &rfix.Scn{SrcIA: rfix.OtherIA, DstIA: addr.MustParseIA("3-ff00:0:777"), Kinds: []rfix.SegKind{rfix.KUp, rfix.KDown}, ConsDirs: []bool{false, true}}
+	sc.SrcHost, sc.DstHost = rfix.RandHost(rng), rfix.RandHost(rng)
+	rif := func() uint16 { return uint16(1 + rng.IntN(65535)) }
+	type thop struct {
+		in, eg uint16
+		local  bool
+	}
+	up := make([]thop, u)
+	dn := make([]thop, d)
+	for i := range up {
+		up[i] = thop{in: rif(), eg: rif()}
+	}
+	for i := range dn {
+		dn[i] = thop{in: rif(), eg: rif()}
+	}
+	up[0].in = 0
+	dn[d-1].eg = 0
+	if atUp {
+		sc.Shape = rfix.ShPeerUp
+		up[u-1].local = true
+		up[u-1].eg = peerIf.ID
+		if u == 1 {
+			sc.SrcIA = s.Cfg.IA
+			sc.In = rfix.Ingress{IfID: 0, Src: &net.UDPAddr{IP: sc.SrcHost.IP().AsSlice(), Port: 30000 + rng.IntN(1000)}}
+			sc.Arr = rfix.ArrInternal
+		} else {
+			up[u-1].in = childIf.ID
+			sc.In = rfix.Ingress{IfID: childIf.ID}
+			sc.Arr = rfix.ArrExternal
+			sc.InIf = childIf.ID
+		}
+		sc.EgIf, sc.EgOwned = peerIf.ID, true
+	} else {
+		sc.Shape = rfix.ShPeerDown
+		dn[0].local = true
+		dn[0].in = peerIf.ID
+		sc.In = rfix.Ingress{IfID: peerIf.ID}
+		sc.Arr = rfix.ArrExternal
+		sc.InIf = peerIf.ID
+		if d == 1 {
+			sc.DstIA = s.Cfg.IA
+			sc.Deliver = true
+		} else {
+			dn[0].eg = childIf.ID
+			sc.EgIf, sc.EgOwned = childIf.ID, true
+		}
+	}
+	spec := &rfix.PathSpec{}
+	g := 0
+	for i, th := range [][]thop{up, dn} {
+		consDir := i == 1
+		seg := &rfix.Segment{Ts: uint32(now - int64(rng.IntN(3000)) - 5), Peer: true, B0: uint16(rng.IntN(1 << 16)), Hops: make([]rfix.Hop, len(th))}
+		for tt, x := range th {
+			ci := tt
+			if !consDir {
+				ci = len(th) - 1 - tt
+			}
+			hp := &seg.Hops[ci]
+			hp.Exp = uint8(20 + rng.IntN(236))
+			if consDir {
+				hp.ConsIn, hp.ConsEg = x.in, x.eg
+			} else {
+				hp.ConsIn, hp.ConsEg = x.eg, x.in
+			}
+			if x.local {
+				hp.Key = s.Cfg.HopKey
+				sc.LocalHops = append(sc.LocalHops, g)
+				spec.Cur = g
+			}
+			g++
+		}
+		seg.Seal(rng)
+		spec.Segs = append(spec.Segs, rfix.SegUse{Seg: seg, ConsDir: consDir})
+	}
+	sc.Spec = spec
+	return sc
+}
+
+// c13Scenario picks a scenario and says where the router stands.
+func c13Scenario(rng *rand.Rand, s *rfix.Star, now int64) (*rfix.Scn, string) {
+	want := []string{"last", "penultimate", "xover-penultimate", "other", "tiny-peer", "other"}[rng.IntN(6)]
+	if want == "tiny-peer" {
+		for try := 0; try < 20; try++ {
+			sc := genPeerTiny(s, rng, now, 1+rng.IntN(3), 1+rng.IntN(3), rng.IntN(2) == 0)
+			if sc != nil {
+				return sc, "tiny-peer"
+			}
+		}
+		want = "last"
+	}
+	for try := 0; try < 400; try++ {
+		var shape rfix.Shape
+		switch want {
+		case "last":
+			shape = rfix.ShDst
+		case "penultimate":
+			shape = []rfix.Shape{rfix.ShTransit, rfix.ShTransit, rfix.ShPeerDown, rfix.ShXover}[rng.IntN(4)]
+		case "xover-penultimate":
+			shape = rfix.ShXover
+		default:
+			shape = rfix.Shape(rng.IntN(int(rfix.NumShapes)))
+		}
+		sc := genScn(s, rng, shape, now)
+		n := sc.Spec.NumHops()
+		cur := sc.Spec.Cur
+		switch want {
+		case "last":
+			return sc, want
+		case "penultimate":
+			if cur == n-2 {
+				return sc, want
+			}
+		case "xover-penultimate":
+			// arriving at the last hop of a segment with the next segment's first hop at n-2
+			if cur == n-3 && len(sc.LocalHops) == 2 && sc.LocalHops[1] == n-2 {
+				return sc, want
+			}
+		default:
+			if cur < n-2 && !(len(sc.LocalHops) == 2 && sc.LocalHops[1] == n-2) {
+				return sc, want
+			}
+		}
+	}
+	return genScn(s, rng, rfix.ShDst, now), "last"
+}
+
+var c13Perts = []string{
+	"none", "none", "none",
+	"time", "time", "time", "time",
+	"src-ia", "src-host", "src-host-len", "payload-len", "pktid-counter", "epic-ts-tick", "info-ts",
+	"hvf-bit", "hvf-bit", "other-hvf-bit", "hvf-swapped", "wrong-auth", "short-auth", "garbage", "hop-mac-bit",
+}
+
+func c13Case(r *mon.Run, rng *rand.Rand, s *rfix.Star, w *cfgW, idx int) {
+	now := time.Now()
+	sc, _ := c13Scenario(rng, s, now.Unix())
+	pert := c13Perts[rng.IntN(len(c13Perts))]
+	spec := sc.Spec
+	n := spec.NumHops()
+
+	// ---- sender time ----
+	off := time.Duration(rng.IntN(1500)-1000) * time.Millisecond // surely fresh: [-1s, +0.5s)
+	timeClass := "fresh"
+	if pert == "time" {
+		delta := time.Duration(250+rng.IntN(1500)) * time.Millisecond
+		if r.Thorough() && rng.IntN(2) == 0 {
+			delta = []time.Duration{time.Millisecond, 5 * time.Millisecond, 20 * time.Millisecond, 100 * time.Millisecond}[rng.IntN(4)]
+		}
+		switch rng.IntN(10) {
+		case 0:
+			off, timeClass = -epicWindowPast-delta, "just-stale"
+		case 1:
+			off, timeClass = -epicWindowPast+delta, "just-fresh-old"
+		case 2:
+			off, timeClass = epicSkew-delta, "just-fresh-young"
+		case 3:
+			off, timeClass = epicSkew+delta/8, "future-1s+"
+		case 4:
+			off, timeClass = epicWindowPast+delta, "future-3s+"
+		case 5:
+			off, timeClass = epicWindowPast-delta/8-time.Millisecond, "future-3s-"
+		case 6:
+			off, timeClass = -time.Duration(4+rng.IntN(900))*time.Second, "stale"
+		case 7:
+			off, timeClass = time.Duration(4+rng.IntN(3600))*time.Second, "future"
+		case 8:
+			off, timeClass = -time.Duration(rng.IntN(2900))*time.Millisecond, "fresh-old"
+		default:
+			off, timeClass = time.Duration(rng.IntN(900))*time.Millisecond, "fresh-young"
+		}
+	}
+	target := now.Add(off)
+	// the first info field's timestamp must not be after the sender time
+	seg0 := spec.Segs[0].Seg
+	if int64(seg0.Ts) > target.Unix()-1 {
+		seg0.Ts = uint32(target.Unix() - 1 - int64(rng.IntN(50)))
+		seg0.Seal(rng)
+	}
+	ticks := (target.UnixNano()-int64(seg0.Ts)*1e9)/int64(epicTick) - 1
+	if ticks < 0 || ticks >= 1<<32 {
+		r.Inconclusive("epic-ts-not-encodable")
+		return
+	}
+	var pktID [8]byte
+	binary.BigEndian.PutUint32(pktID[:4], uint32(ticks))
+	binary.BigEndian.PutUint32(pktID[4:], rng.Uint32())
+
+	// ---- base packet ----
+	base := rfix.PktSpec{
+		SrcIA: sc.SrcIA, DstIA: sc.DstIA, SrcHost: sc.SrcHost, DstHost: sc.DstHost,
+		TC: uint8(rng.IntN(256)), FlowID: uint32(rng.IntN(1 << 20)),
+		L4: rfix.L4UDP, SrcPort: uint16(1024 + rng.IntN(60000)), DstPort: uint16(1024 + rng.IntN(60000)),
+		Payload: make([]byte, 1+rng.IntN(200)),
+	}
+	for i := range base.Payload {
+		base.Payload[i] = byte(rng.IntN(256))
+	}
+	// what the source "claims" when computing the HVFs
+	claimSrcIA, claimSrcHost, claimPayload, claimID, claimTs := base.SrcIA, base.SrcHost, len(base.Payload), pktID, seg0.Ts
+	var infoTsDelta int64
+	switch pert {
+	case "src-ia":
+		claimSrcIA = addr.MustIAFrom(addr.ISD(1+rng.IntN(60000)), addr.AS(1+rng.Uint64N(1<<40)))
+		if claimSrcIA == base.SrcIA {
+			claimSrcIA++
+		}
+	case "src-host", "src-host-len":
+		for {
+			claimSrcHost = rfix.RandHost(rng)
+			same := claimSrcHost.IP().Is4() == base.SrcHost.IP().Is4()
+			if claimSrcHost != base.SrcHost && same == (pert == "src-host") {
+				break
+			}
+		}
+	case "payload-len":
+		claimPayload = len(base.Payload) + 1 + rng.IntN(50)
+	case "pktid-counter":
+		claimID[4+rng.IntN(4)] ^= 1 << rng.IntN(8)
+	case "epic-ts-tick":
+		t := binary.BigEndian.Uint32(claimID[:4])
+		if rng.IntN(2) == 0 && t > 100 {
+			t -= uint32(1 + rng.IntN(100))
+		} else {
+			t += uint32(1 + rng.IntN(100))
+		}
+		binary.BigEndian.PutUint32(claimID[:4], t)
+	case "info-ts":
+		// the HVFs are computed over another first-info-field timestamp than the packet carries
+		infoTsDelta = int64(1 + rng.IntN(3))
+		claimTs = uint32(int64(seg0.Ts) - infoTsDelta)
+	}
+	dec := spec.Decoded(sc.Arr)
+	plainSpec := base
+	plainSpec.Path, plainSpec.PathType = dec, 1
+	plain, err := plainSpec.Build()
+	if err != nil {
+		r.Inconclusive("build-error")
+		return
+	}
+	ph, err := rfix.ParseHdr(plain)
+	if err != nil {
+		r.Violation("C13:fixture-parse", "reference parser rejects a generated packet: "+err.Error(), c13W{Cfg: w, Input: hex.EncodeToString(plain)})
+		return
+	}
+	// claimed MAC inputs -> HVFs
+	claimRaw := func() (uint8, []byte) {
+		ip := claimSrcHost.IP()
+		if ip.Is4() {
+			b := ip.As4()
+			return 0, b[:]
+		}
+		b := ip.As16()
+		return 3, b[:]
+	}
+	sl, srcRaw := claimRaw()
+	payloadLen := ph.PayloadLen - len(base.Payload) + claimPayload
+	hvfFor := func(g int) [4]byte {
+		return refEpicMAC(spec.HopAt(g).Full, sl, claimTs, claimID, uint64(claimSrcIA), srcRaw, uint16(payloadLen))
+	}
+	var phvf, lhvf [4]byte
+	if n >= 2 {
+		phvf = hvfFor(n - 2)
+	}
+	lhvf = hvfFor(n - 1)
+	// which HVF is "mine"
+	gen := viewEpicPos(spec, sc)
+	mine, otherHVF := &lhvf, &phvf
+	if gen != "last" {
+		mine, otherHVF = &phvf, &lhvf
+	}
+	switch pert {
+	case "hvf-bit":
+		b := rng.IntN(32)
+		mine[b/8] ^= 1 << (b % 8)
+	case "other-hvf-bit":
+		b := rng.IntN(32)
+		otherHVF[b/8] ^= 1 << (b % 8)
+	case "hvf-swapped":
+		phvf, lhvf = lhvf, phvf
+	case "wrong-auth":
+		g := rng.IntN(n)
+		for n > 1 && (g == n-1 && gen == "last" || g == n-2 && gen != "last") {
+			g = rng.IntN(n)
+		}
+		*mine = hvfFor(g)
+		if n == 1 {
+			mine[0] ^= 1
+		}
+	case "short-auth":
+		var a [16]byte
+		g := n - 1
+		if gen != "last" {
+			g = n - 2
+		}
+		copy(a[:], spec.HopAt(g).Mac[:])
+		*mine = refEpicMAC(a, sl, claimTs, claimID, uint64(claimSrcIA), srcRaw, uint16(payloadLen))
+	case "garbage":
+		binary.BigEndian.PutUint32(phvf[:], rng.Uint32())
+		binary.BigEndian.PutUint32(lhvf[:], rng.Uint32())
+	}
+	ep := &epic.Path{
+		PktID: epic.PktID{Timestamp: binary.BigEndian.Uint32(pktID[:4]), Counter: binary.BigEndian.Uint32(pktID[4:])},
+		PHVF:  phvf[:], LHVF: lhvf[:],
+		ScionPath: rfix.RawPath(dec),
+	}
+	epSpec := base
+	epSpec.Path, epSpec.PathType = ep, 3
+	in, err := epSpec.Build()
+	if err != nil {
+		r.Inconclusive("build-error")
+		return
+	}
+	if pert == "hop-mac-bit" {
+		// the same damage to the current hop field in both twins
+		eh, err := rfix.ParseHdr(in)
+		if err != nil {
+			r.Violation("C13:fixture-parse", "reference parser rejects a generated EPIC packet: "+err.Error(), c13W{Cfg: w, Input: hex.EncodeToString(in)})
+			return
+		}
+		b := rng.IntN(48)
+		in[eh.HopOff[eh.CurrHF]+6+b/8] ^= 1 << (b % 8)
+		plain[ph.HopOff[ph.CurrHF]+6+b/8] ^= 1 << (b % 8)
+	}
+	c13Judge(r, s, w, sc, in, plain, pert, timeClass, idx)
+}
+
+// viewEpicPos is the generator's own idea of the position (only used to decide
+// which HVF a perturbation targets).
+func viewEpicPos(spec *rfix.PathSpec, sc *rfix.Scn) string {
+	n := spec.NumHops()
+	switch {
+	case spec.Cur == n-1:
+		return "last"
+	case spec.Cur == n-2:
+		return "penultimate"
+	case spec.Cur == n-3 && len(sc.LocalHops) == 2 && sc.LocalHops[1] == n-2:
+		return "xover-penultimate"
+	}
+	return "other"
+}
+
+func c13Judge(r *mon.Run, s *rfix.Star, w *cfgW, sc *rfix.Scn, in, plain []byte, pert, timeClass string, idx int) {
+	fromOutside := true
+	shape, ing, scDesc := "replay", "replay", "replay"
+	var ingress rfix.Ingress
+	if sc != nil {
+		fromOutside = sc.Arr == rfix.ArrExternal
+		ingress = sc.In
+		shape = sc.Shape.String()
+		ing = "external"
+		if sc.In.IfID == 0 {
+			ing = "host"
+		} else if !fromOutside {
+			ing = "sibling"
+		}
+		scDesc = fmt.Sprintf("%s kinds=%v consdir=%v in=%d eg=%d arr=%d cur=%d/%d", sc.Shape, sc.Kinds, sc.ConsDirs, sc.InIf, sc.EgIf, sc.Arr, sc.Spec.Cur, sc.Spec.NumHops())
+	}
+	v := viewEpic(in, s.Cfg.HopKey, fromOutside)
+	if !v.ok {
+		r.Violation("C13:fixture-parse", "reference cannot read the generated EPIC packet", c13W{Cfg: w, Input: hex.EncodeToString(in)})
+		return
+	}
+	t0 := time.Now()
+	res := s.Process(in, ingress)
+	t1 := time.Now()
+	r.Eval(1)
+	wit := func(note string, pres *rfix.Result) c13W {
+		x := c13W{Cfg: w, Scenario: scDesc, Pos: v.pos, Pert: pert + "/" + timeClass, InIf: ingress.IfID, Input: hex.EncodeToString(in),
+			Plain: hex.EncodeToString(plain), Output: hex.EncodeToString(res.Out), OffsetMs: (v.senderNs - t0.UnixNano()) / 1e6, Note: note}
+		if ingress.Src != nil {
+			x.SrcUDP = ingress.Src.String()
+		}
+		if pres != nil {
+			x.PlainOut = hex.EncodeToString(pres.Out)
+		}
+		return x
+	}
+	if res.Panic != "" {
+		r.Violation("C13:panic:"+mon.PanicSite(res.Stack), "panic: "+res.Panic, wit(res.Stack, nil))
+		return
+	}
+	outcome := "drop"
+	if res.Forwarded() {
+		outcome = "forward"
+		if res.OutScope == router.Internal {
+			outcome = "deliver"
+		}
+	} else if res.ViaSlow {
+		outcome = fmt.Sprintf("scmp-%d-%d", res.SlowKind, res.SlowCode)
+	}
+	r.Class(fmt.Sprintf("%s/%s/%s/%s/%s/%s", v.pos, shape, ing, pert, timeClass, outcome))
+	if r.WantSample() && idx%499 == 0 {
+		r.Sample(wit("", nil))
+	}
+	if v.pos == "other" {
+		c13Twin(r, s, ingress, in, plain, &res, wit)
+		return
+	}
+	f0, f1 := freshAt(v.senderNs, t0), freshAt(v.senderNs, t1)
+	if res.Forwarded() {
+		if !f0 && !f1 {
+			r.Violation("C13:accepted-stale:"+v.pos, fmt.Sprintf("EPIC packet accepted at its %s hop although its sender time is %d ms away from now (limit 3000 ms)", v.pos, (v.senderNs-t0.UnixNano())/1e6), wit("", nil))
+			return
+		}
+		if !v.hvfOK {
+			r.Violation("C13:accepted-bad-hvf:"+v.pos, fmt.Sprintf("EPIC packet accepted at its %s hop although the hop validation field is not the EPIC MAC of that hop's authenticator over the packet's source, payload length, packet id and timestamp", v.pos), wit("", nil))
+			return
+		}
+		if f0 != f1 {
+			r.Inconclusive("time-bracket")
+			return
+		}
+		r.Event("valid_accepted_" + map[string]string{"last": "last", "penultimate": "penultimate", "xover-penultimate": "penultimate"}[v.pos])
+		if v.pos == "xover-penultimate" {
+			r.Event("valid_accepted_xover_penultimate")
+		}
+		if v.n == 2 && (shape == "peer-up" || shape == "peer-down") {
+			// two-hop peering path (segment lengths 1,1): the first hop is penultimate and a peering hop
+			r.Event("valid_accepted_peering_1_1_" + v.pos)
+		}
+		return
+	}
+	// rejected
+	s0, s1 := surelyFreshAt(v.senderNs, t0), surelyFreshAt(v.senderNs, t1)
+	switch {
+	case !v.hvfOK:
+		r.Event("hvf_mismatch_rejected")
+	case !f0 && !f1:
+		if v.senderNs > t1.UnixNano() {
+			r.Event("future_rejected")
+		} else {
+			r.Event("stale_rejected")
+		}
+	case s0 && s1:
+		// valid in every respect (hop MACs are the generator's) and inside the window of every reading
+		if plain != nil {
+			pres := s.Process(plain, ingress)
+			if !pres.Forwarded() {
+				r.Event("rejected_like_plain_twin")
+				return
+			}
+		}
+		r.Violation("C13:valid-rejected:"+v.pos, fmt.Sprintf("a fresh EPIC packet (sender time %d ms from now) with correct hop validation field was not accepted at its %s hop although its embedded SCION path is", (v.senderNs-t0.UnixNano())/1e6, v.pos), wit(fmt.Sprintf("disp=%d slow=%v kind=%d code=%d", res.Disp, res.ViaSlow, res.SlowKind, res.SlowCode), nil))
+	case s0 != s1 || f0 != f1:
+		r.Inconclusive("time-bracket")
+	default:
+		r.Event("future_within_lifetime_rejected_unjudged")
+	}
+}
+
+// c13Twin compares the processing of an EPIC packet at a hop that is neither
+// penultimate nor last with that of its embedded SCION path as a plain packet.
+func c13Twin(r *mon.Run, s *rfix.Star, ingress rfix.Ingress, in, plain []byte, res *rfix.Result, wit func(string, *rfix.Result) c13W) {
+	if plain == nil {
+		return
+	}
+	eout := append([]byte(nil), res.Out...)
+	pres := s.Process(plain, ingress)
+	if pres.Panic != "" {
+		r.Violation("C13:panic:"+mon.PanicSite(pres.Stack), "panic on the plain twin: "+pres.Panic, wit(pres.Stack, &pres))
+		return
+	}
+	res.Out = eout
+	if pres.Disp != res.Disp || pres.ViaSlow != res.ViaSlow || pres.Forwarded() != res.Forwarded() {
+		r.Violation("C13:other-hop-differs:disposition", fmt.Sprintf("EPIC packet at a hop other than penultimate/last: disposition %d (slow=%v), its embedded SCION path as plain packet: %d (slow=%v)", res.Disp, res.ViaSlow, pres.Disp, pres.ViaSlow), wit("", &pres))
+		return
+	}
+	if res.ViaSlow {
+		if pres.SlowKind != res.SlowKind || pres.SlowCode != res.SlowCode {
+			r.Violation("C13:other-hop-differs:scmp", fmt.Sprintf("EPIC: SCMP %d/%d, plain twin: SCMP %d/%d", res.SlowKind, res.SlowCode, pres.SlowKind, pres.SlowCode), wit("", &pres))
+			return
+		}
+		r.Event("other_hop_same_as_scion_rejected")
+		return
+	}
+	if !res.Forwarded() {
+		r.Event("other_hop_same_as_scion_rejected")
+		return
+	}
+	if pres.Egress != res.Egress || pres.OutScope != res.OutScope {
+		r.Violation("C13:other-hop-differs:egress", fmt.Sprintf("EPIC packet leaves via %d (scope %d), plain twin via %d (scope %d)", res.Egress, res.OutScope, pres.Egress, pres.OutScope), wit("", &pres))
+		return
+	}
+	eh, err1 := rfix.ParseHdr(res.Out)
+	ph, err2 := rfix.ParseHdr(pres.Out)
+	ih, err3 := rfix.ParseHdr(in)
+	if err1 != nil || err2 != nil || err3 != nil || eh.PathType != 3 || ph.PathType != 1 {
+		r.Violation("C13:other-hop-differs:unparsable", "forwarded packet does not parse", wit(fmt.Sprint(err1, err2, err3), &pres))
+		return
+	}
+	same := len(res.Out) == len(pres.Out)+16 &&
+		string(res.Out[0:5]) == string(pres.Out[0:5]) && // version, TC, flow id, next header
+		int(res.Out[5]) == int(pres.Out[5])+4 && // header length: 16 bytes more
+		string(res.Out[6:8]) == string(pres.Out[6:8]) && // payload length
+		string(res.Out[9:eh.PathOff]) == string(pres.Out[9:ph.PathOff]) && // address types, addresses
+		string(res.Out[eh.PathOff:eh.PathOff+16]) == string(in[ih.PathOff:ih.PathOff+16]) && // EPIC fields untouched
+		string(res.Out[eh.PathOff+16:]) == string(pres.Out[ph.PathOff:]) // SCION path and payload
+	if !same {
+		r.Violation("C13:other-hop-differs:bytes", "EPIC packet forwarded at a hop other than penultimate/last differs from its embedded SCION path forwarded as a plain packet (beyond the 16 EPIC bytes)", wit("", &pres))
+		return
+	}
+	r.Event("other_hop_same_as_scion_forwarded")
+}
+
+func c13Replay(r *mon.Run, w *c13W) {
+	s := mustStar(w.Cfg)
+	in, _ := hex.DecodeString(w.Input)
+	var plain []byte
+	if w.Plain != "" {
+		plain, _ = hex.DecodeString(w.Plain)
+	}
+	r.Class("replay")
+	r.Class("replay-2")
+	r.Sample(w)
+	fmt.Println("replay: freshness is relative to the time of the original run; only HVF and twin verdicts are reproducible")
+	ing := rfix.Ingress{IfID: w.InIf}
+	if w.SrcUDP != "" {
+		if a, err := net.ResolveUDPAddr("udp", w.SrcUDP); err == nil {
+			ing.Src = a
+		}
+	}
+	fromOutside := w.InIf != 0 && s.Link(w.InIf) != nil && s.Link(w.InIf).Scope() == router.External
+	v := viewEpic(in, s.Cfg.HopKey, fromOutside)
+	res := s.Process(in, ing)
+	r.Eval(1)
+	if v.pos == "other" {
+		c13Twin(r, s, ing, in, plain, &res, func(n string, p *rfix.Result) c13W { return *w })
+		return
+	}
+	if res.Forwarded() && !v.hvfOK {
+		r.Violation("C13:accepted-bad-hvf:"+v.pos, "replayed", w)
+	}
+}
